@@ -53,6 +53,23 @@ def q(x):
         return '((%d) # %d)' % (f.numerator, f.denominator)
     return '(%d # %d)' % (f.numerator, f.denominator)
 
+def zz(x):
+    """a float64 as an exact (mantissa, binary exponent) pair of Z literals (hex mantissa: cheap to parse)"""
+    import math
+    x = float(x)
+    if x != x or x in (float('inf'), float('-inf')):
+        raise ValueError('non-finite value cannot be sent to the exact model: %r' % x)
+    if x == 0:
+        return '(0%Z, 0%Z)'
+    m, e = math.frexp(x)
+    mi = int(m * (1 << 53)); e -= 53
+    while mi % 2 == 0:
+        mi //= 2; e += 1
+    return '((%s0x%x)%%Z, (%d)%%Z)' % ('-' if mi < 0 else '', abs(mi), e)
+
+def zzl(xs):
+    return '[' + '; '.join(zz(x) for x in xs) + ']'
+
 def ql(xs):
     return '[' + '; '.join(q(x) for x in xs) + ']'
 
